@@ -354,6 +354,106 @@ func normElem(sb *strings.Builder, e crdt.Element) {
 	}
 }
 
+// identities renders the identity (creation ticket) of every live element,
+// text unit and tree node. Used only to decide whether the two setup replicas
+// really hold the same structure at the start (equal visible content over
+// different identities is a divergence of the setup history, which belongs
+// to the convergence properties).
+func identities(d *document.Document) string {
+	var sb strings.Builder
+	identElem(&sb, d.InternalDocument().Root(), d.RootObject())
+	return sb.String()
+}
+
+func identElem(sb *strings.Builder, root *crdt.Root, e crdt.Element) {
+	sb.WriteString(e.CreatedAt().Key())
+	if root.FindByCreatedAt(e.CreatedAt()) != e {
+		// two elements share one identity and the registry resolves it to
+		// the one that is not visible (left behind by concurrent undos of
+		// Object.Set in the setup history, the F6 family)
+		sb.WriteString("!CLASH")
+	}
+	switch v := e.(type) {
+	case *crdt.Object:
+		m := v.Members()
+		keys := make([]string, 0, len(m))
+		for k := range m {
+			keys = append(keys, k)
+		}
+		sort.Strings(keys)
+		sb.WriteString("{")
+		for _, k := range keys {
+			fmt.Fprintf(sb, "%q:", k)
+			identElem(sb, root, m[k])
+			sb.WriteString(",")
+		}
+		sb.WriteString("}")
+	case *crdt.Array:
+		sb.WriteString("[")
+		for _, el := range v.Elements() {
+			identElem(sb, root, el)
+			sb.WriteString(",")
+		}
+		sb.WriteString("]")
+	case *crdt.Text:
+		sb.WriteString("T<")
+		for _, n := range v.Nodes() {
+			if n.RemovedAt() != nil || n.Value() == nil {
+				continue
+			}
+			for i := range utf16.Encode([]rune(n.Value().Value())) {
+				fmt.Fprintf(sb, "%s+%d;", n.ID().CreatedAt().Key(), n.ID().Offset()+i)
+			}
+		}
+		sb.WriteString(">")
+	case *crdt.Tree:
+		sb.WriteString("X<")
+		identTree(sb, v.Root())
+		sb.WriteString(">")
+	}
+}
+
+func identTree(sb *strings.Builder, n *crdt.TreeNode) {
+	if n.IsText() {
+		for i := range utf16.Encode([]rune(n.Value)) {
+			fmt.Fprintf(sb, "%s+%d;", n.ID().CreatedAt.Key(), n.ID().Offset+i)
+		}
+		return
+	}
+	fmt.Fprintf(sb, "(%s+%d:", n.ID().CreatedAt.Key(), n.ID().Offset)
+	for _, ch := range n.Index.Children() {
+		identTree(sb, ch.Value)
+	}
+	sb.WriteString(")")
+}
+
+// entryTriggersC14c reports whether a stacked entry would re-insert an array
+// element (Add reverse of an array delete) anchored on a position that an
+// element was MOVED into and that element has since been removed (finding
+// C14c: the anchor is a position identity, which ReconcileCreatedAt does not
+// rewrite when the removed sibling is itself restored under a fresh identity,
+// so the element comes back at the wrong index).
+func entryTriggersC14c(d *document.Document, ops []document.HistoryOperation) bool {
+	for _, h := range ops {
+		add, ok := h.Op.(*operations.Add)
+		if !ok || add.PrevCreatedAt() == nil {
+			continue
+		}
+		arr, ok := d.InternalDocument().Root().FindByCreatedAt(add.ParentCreatedAt()).(*crdt.Array)
+		if !ok || arr == nil {
+			continue
+		}
+		n := arr.RGATreeList().GetByID(add.PrevCreatedAt())
+		if n == nil || n.Element() == nil {
+			continue
+		}
+		if n.PositionCreatedAt().Key() != n.Element().CreatedAt().Key() && n.Element().RemovedAt() != nil {
+			return true
+		}
+	}
+	return false
+}
+
 // ---------------------------------------------------------------------------
 // Starting state: a short two-replica history exchanged through the relay
 // with GC at the protocol's minimum vectors, brought to a point where the
@@ -446,7 +546,8 @@ func buildEnv(c Case) *env {
 		e.skip = "harness: test replica still has local changes after the final round"
 		return e
 	}
-	if a, b := e.test.Marshal(), e.peer.Marshal(); normalise(e.test) != normalise(e.peer) {
+	if a, b := e.test.Marshal(), e.peer.Marshal(); normalise(e.test) != normalise(e.peer) ||
+		identities(e.test) != identities(e.peer) || strings.Contains(identities(e.test), "!CLASH") {
 		e.skip = "setup diverged"
 		logf("setup diverged:\n test %s\n peer %s", a, b)
 		return e
